@@ -57,6 +57,7 @@ type Scenario struct {
 	Who     string            `json:"who"`     // stop: party
 	After   int               `json:"after"`   // stop: number of deliveries before Stop
 	Cross   bool              `json:"cross"`   // equiv: also deliver the other universe's later messages
+	Both    bool              `json:"both"`    // equiv: a party of group B gets the B version ADDRESSED to it first, then the A version as an ordinary broadcast
 	Variant string            `json:"variant"` // presigncheat: offline | full | online
 	Rule    string            `json:"rule"`    // presigncheat: delta | gamma | x-chi | chi (offline, full); k | chi (online)
 	Stage   string            `json:"stage"`   // presigncheat: where PresignAlg.tla predicts the deviation is caught (abort1 | abort2 | sigma)
@@ -567,6 +568,7 @@ func (r *runner) equiv(sess *protos.Session, label func(party.ID) string) {
 		return ""
 	}
 	var emittedA, emittedB []*protocol.Message
+	heldA := map[party.ID]*protocol.Message{}
 	e.OnEmit = func(inst party.ID, m *protocol.Message) bool {
 		if inst != kA && inst != kB {
 			return true
@@ -604,7 +606,21 @@ func (r *runner) equiv(sess *protos.Session, label func(party.ID) string) {
 			case inst == kA && (group(j) == "A" || r.sc.Cross && int(m.RoundNumber) > r.sc.Round):
 				e.Net.PostTo(m, j, "e1")
 			case inst == kB && (group(j) == "B" || r.sc.Cross && int(m.RoundNumber) > r.sc.Round):
-				e.Net.PostTo(m, j, "e2")
+				if r.sc.Both && m.Broadcast && int(m.RoundNumber) == r.sc.Round && group(j) == "B" {
+					// the same broadcast, but naming its recipient (the header filter lets it through)
+					c := sim.CloneMsg(m)
+					c.To = j
+					e.InheritLabels(c, m)
+					e.SetVar(c, "e2")
+					e.Net.PostTo(c, j, "e2")
+				} else {
+					e.Net.PostTo(m, j, "e2")
+				}
+			}
+			// "both": the A version of the equivocated broadcast follows the B version at the parties of group B (a second,
+			// different message for a filled slot: dropped as a duplicate)
+			if r.sc.Both && inst == kA && m.Broadcast && int(m.RoundNumber) == r.sc.Round && group(j) == "B" {
+				heldA[j] = m
 			}
 		}
 		return false
@@ -628,6 +644,12 @@ func (r *runner) equiv(sess *protos.Session, label func(party.ID) string) {
 		if d.To != k {
 			if d.Msg.From == k && (d.Tag == "e1" || d.Tag == "e2") && int(d.Msg.RoundNumber) == r.sc.Round {
 				r.out.Reached = true
+			}
+			if r.sc.Both && d.Tag == "e2" && d.Msg.Broadcast && int(d.Msg.RoundNumber) == r.sc.Round && heldA[d.To] != nil {
+				r.deliver(d.To, d.Msg, "ok")
+				e.Net.PostTo(heldA[d.To], d.To, "e1")
+				delete(heldA, d.To)
+				return true
 			}
 			return false
 		}
